@@ -34,7 +34,7 @@ CMP = ("x", "fun", "jac", "nfev", "njev", "nit", "sk", "yk")
 def floors(tier):
     return {"callback_states": 300, "states_vs_maxiter_run": 300, "retained_states_rechecked": 800, "crash_points": 500,
             "restarts_from_retained_state": 500, "callback_free_runs_compared": 60, "callback_free_runs_compared_with_objective_redefined": 60, "callback_free_runs_compared_with_nested_run_in_callback": 30, "problems_with_reused_gradient_buffer": 20, "finite_difference_restarts_from_retained_state": 100,
-            "ufd_runs_stopped_by:FTOL": 20, "continuations_compared_to_the_end": 400, "continuations_through_a_failed_line_search": 40, "restarts_from_states_right_after_a_memory_refresh": 6, "__nontrivial__": 300}
+            "ufd_runs_stopped_by:FTOL": 20, "continuations_compared_to_the_end": 400, "continuations_through_a_failed_line_search": 40, "problems_with_a_target_tying_with_the_value_of_an_iterate": 15, "restarts_from_states_right_after_a_memory_refresh": 6, "__nontrivial__": 300}
 
 
 def exhaustive(tier):
@@ -56,6 +56,8 @@ def cases(tier, seed):
         if i % 7 == 4:
             spec["ls"] = {"ftol_linesearch": float(gen.pick(rng, [1e-4, 1e-2, 0.1])), "gtol_linesearch": float(gen.pick(rng, [0.5, 0.99])),
                           "xtol_linesearch": float(gen.pick(rng, [1e-8, 1e-3, 0.3])), "max_steplength": float(gen.pick(rng, [1e10, 1e10, 2.0]))}
+        if i % 6 == 5 and not spec.get("scaler"):
+            spec["target_tie"] = int(rng.integers(2, 7))
         if i % 5 == 2:
             spec["reuse_grad_buffer"] = True  # the user's gradient fills and returns one preallocated array
         if i % 4 == 1:
@@ -337,6 +339,16 @@ def run(spec):
     P = gen.make_problem(spec["problem"])
     K = spec["K"]
     base = dict(jac="callable", maxcor=spec["maxcor"], maxls=spec["maxls"], ftol=0.0, gtol=1e-12, maxfun=100000)
+    if spec.get("target_tie"):
+        # a target equal, to the last bit, to the objective value of a later iterate (taken from an earlier run of the same problem):
+        # the run and every restart stop there
+        pre = probes.run_min(P, dict(base, maxiter=int(spec["target_tie"])))
+        if pre.exc is None and pre.result.nit == int(spec["target_tie"]) and np.isfinite(pre.result.fun):
+            base["ftarget"] = float(pre.result.fun) / (float(spec["scaler"]) if spec.get("scaler") else 1.0) if not spec.get("scaler") else None
+            if base["ftarget"] is None:
+                base.pop("ftarget")
+            else:
+                out.count("problems_with_a_target_tying_with_the_value_of_an_iterate")
     if spec.get("ls"):
         base.update(spec["ls"])  # non-default line-search constants / user step cap, the same in the run and in every restart
         out.count("problems_with_non_default_line_search_constants")
@@ -457,6 +469,12 @@ def run(spec):
         st = rec["ref"]
         k = int(rec["snap"]["nit"])
         if k >= K:
+            continue
+        if base.get("ftarget") is not None and float(rec["snap"]["fun"]) != float(base["ftarget"]):
+            # the target ties with the value of ONE iterate of the uninterrupted run to the last bit; a continuation from an earlier state
+            # reaches that iterate up to rounding only, and whether it then meets the target is decided by that rounding. Only the
+            # continuation from the tying state itself (which holds the value exactly) is judged
+            out.count("continuations_towards_an_exact_tie_not_judged")
             continue
         if not all(stored[m] for m in range(j, len(main_tr.cb)) if int(main_tr.cb[m]["snap"]["nit"]) < horizon):
             out.count("continuations_after_a_rejected_pair_not_judged")
